@@ -334,6 +334,12 @@ func (t *largeHuffCodeTable) encodeLongCodes(ctx *dynamicHeaderReader, codeListL
 			}
 		}
 
+		// clear the group first: with an incomplete code some of its entries stay unassigned and
+		// must decode as invalid, not as whatever an earlier table left there
+		for x := longCodeLookupLength; x < longCodeLookupLength+(1<<(maxLen-litLenLookupBits)); x++ {
+			t.longCodeLookup[x] = 0
+		}
+
 		for j := 0; j < int(tempCodeLength); j++ {
 			sym1Index := uint32(tempCodeList[j])
 			sym1 := indexToSym(sym1Index)
